@@ -403,6 +403,16 @@ def rule_E1(ctx, R):
                 cls = "container(loop)"
             elif ok:
                 why = "loop body never calls get_ptrs"
+        if cls == "leaf" and st["k"] == "adt" and st["path"] not in leaf_locks(ctx):
+            # a wrapper may present itself as ONE lock only if it can never contain borrowed locks: every construction
+            # site sits under an OwnedLockable bound (then no member is reachable from outside, cf. O1)
+            sites = [g for g, adt, _ in _agg_sites(ctx, {st["path"]})]
+            loose = [g for g in sites if not _has_owned_bound(ctx.F.top_fn(g))]
+            if loose or not sites:
+                cls = None
+                why = ("pushes itself as one opaque lock although it can be built from borrowed locks (%s): duplicates inside it "
+                       "are invisible to an enclosing duplicate check and its members leave the global address order" % (
+                           ", ".join(sorted(set(ctx.F.top_fn(g)["path"].split("::")[-1] for g in loose))) or "no constructor found"))
         if cls:
             res.ok("%s: %s" % (st["s"], cls))
         else:
